@@ -55,9 +55,29 @@ def norm_path(p):
     return "".join(out)
 
 
-def short_field(name):
+# public types of the runtime, whose field names the rule tables use; any other struct of lexgen_util is
+# private plumbing (e.g. a `Checkpoint { start, iter, action, end }` replacing the tuple in `last_match`)
+# and is viewed positionally, so that the tables do not depend on how such a struct names its fields
+RUNTIME_PUBLIC = {"Lexer", "Loc", "LexerError", "LexerErrorKind", "SemanticActionResult"}
+
+
+PRIVATE_RUNTIME_ADTS = set()      # filled when the facts of crate lexgen_util are loaded (program.py)
+
+
+def private_runtime_struct(adt_path):
+    return adt_path in PRIVATE_RUNTIME_ADTS
+
+
+def short_field(name, index=None):
+    owner = name.rsplit(".", 1)[0] if "." in name else ""
     n = name.rsplit(".", 1)[-1]
+    if index is not None and owner:
+        # owner looks like `<adt path>::<Variant>`
+        adt_path = owner.rsplit("::", 1)[0] if "::" in owner else owner
+        if private_runtime_struct(adt_path):
+            return str(index)
     return n[1:] if n.startswith("#") else n
+
 
 
 class Path(object):
@@ -276,7 +296,7 @@ class Engine(object):
                 else:
                     root, path = ("obj", v), ()
             elif "f" in e:
-                path = path + (short_field(e["f"]),)
+                path = path + (short_field(e["f"], e.get("i")),)
             elif "as" in e:
                 path = path + ("@" + e["as"],)
             elif "idx" in e:
@@ -377,6 +397,8 @@ class Engine(object):
             if a == "array":
                 return ("array", ops)
             if a == "adt":
+                if private_runtime_struct(kind["adt"]):
+                    return ("tuple", ops)       # a private struct of the runtime, viewed positionally
                 return ("adt", kind["adt"], kind["variant"], kind.get("dv", kind["vi"]),
                         tuple(zip(kind["fields"], ops)))
             if a == "closure":
